@@ -111,10 +111,27 @@ class Interp:
                     self.env[n.id] = tbl
                     return tbl
             raise Unsupported(f"CLASSSEL: name `{n.id}` is not part of the configuration", rule="CLASSSEL")
+        if isinstance(n, ast.JoinedStr):
+            # f"PerturbedDroplet{dim}D": evaluable when every formatted value is a known number or string
+            parts = []
+            for v_ in n.values:
+                if isinstance(v_, ast.Constant):
+                    parts.append(str(v_.value))
+                elif isinstance(v_, ast.FormattedValue) and v_.format_spec is None and v_.conversion == -1:
+                    x_ = self.ev(v_.value)
+                    if x_ is TOP or not isinstance(x_, (int, str)) or isinstance(x_, bool):
+                        return TOP
+                    parts.append(str(x_))
+                else:
+                    return TOP
+            return "".join(parts)
         if isinstance(n, ast.Attribute):
             d = U(n)
             if d in self.env:
                 return self.env[d]
+            if n.attr == "_subclasses" and isinstance(n.value, ast.Name) and n.value.id in DROPLET_CLASSES:
+                # the registry every droplet class enters under its own name (DropletBase.__init_subclass__, IOAGREE registry:key)
+                return {c_: Cls(c_) for c_ in DROPLET_CLASSES}
             base = self.ev(n.value)
             if isinstance(base, Drop) and n.attr == "__class__":
                 return Cls(base.cls)
@@ -217,6 +234,14 @@ class Interp:
                 fields = dict(src.fields)
                 fields.update(kw)
                 return Drop(target.name, fields)
+            # a public function of the package applied to request values (spherical_index_lm(modes), …): its result is some
+            # function of the request that this interpreter does not evaluate — never *equal by construction* to a requested value
+            try:
+                callee_ = view(self.m, self.fi).callee(n)
+            except Exception:  # noqa: BLE001
+                callee_ = None
+            if (callee_ or "").startswith("droplets.") and not (callee_ or "").split(".")[-1].startswith("_"):
+                return TOP
             raise Unsupported(f"CLASSSEL: call `{U(n)[:50]}` not interpretable", rule="CLASSSEL")
         raise Unsupported(f"CLASSSEL: expression `{U(n)[:50]}` not interpretable", rule="CLASSSEL")
 
@@ -262,6 +287,9 @@ class Interp:
                     self.env[t.id] = v
                 elif isinstance(t, ast.Subscript) and isinstance(t.value, ast.Name) and isinstance(self.env.get(t.value.id), dict):
                     self.env[t.value.id][self.ev(t.slice)] = v
+                elif isinstance(t, (ast.Tuple, ast.List)) and all(isinstance(e_, ast.Name) for e_ in t.elts) and (v is TOP or (isinstance(v, tuple) and len(v) == len(t.elts))):
+                    for k_, e_ in enumerate(t.elts):
+                        self.env[e_.id] = TOP if v is TOP else v[k_]
                 else:
                     raise Unsupported(f"CLASSSEL: store `{U(t)}` not interpretable", rule="CLASSSEL")
             elif isinstance(s, ast.AugAssign) and isinstance(s.target, ast.Name) and s.target.id in self.env:
